@@ -4,6 +4,7 @@ computation (constant folding, loop unrolling, helper inlining, table lookups) h
 """
 from __future__ import annotations
 import ast
+import os
 import math
 import operator
 import struct
@@ -170,6 +171,10 @@ class Interp:
             return Builtin(dotted)
         if hdl.is_builtin(last):
             return Builtin(last)
+        import builtins as _b
+        if os.environ.get('VERIF_STRICT_NAMES', '1') != '0' and '.' not in dotted and not hasattr(_b, dotted):
+            # a bare name nothing defines (an assignment form the index does not follow): never a value to compute with
+            return Unknown('unresolved name ' + dotted)
         return Builtin(last)
 
     # ------------------------------------------------------------------ expression evaluation
@@ -1141,6 +1146,8 @@ class Interp:
             return False
         from .ir import _known_one_bit, _is_bool
         rw = 1 if _known_one_bit(v.rhs) else v.rhs.w
+        if si.w == 1 and v.rhs.op == 'const' and v.rhs.val in (0, 1):
+            rw = 1                             # `strobe.eq(1)` under a condition: a one-bit constant
         if rw is None and si.w == 1 and v.rhs.op in ('&', '|', '~', 'sig') and _is_bool(v.rhs):
             # a flag built from ports of undeclared width (fields of an interface of another class): the engine reads such
             # ports as flags everywhere (ir.literals), so the named flag and the expression in place are the same thing
@@ -1150,6 +1157,11 @@ class Interp:
             return False
         if any(si.name in a.lhs_sigs() for a in self.ir.assigns):
             return False                       # already driven elsewhere
+        if (self.cur_states() or self.guard()) and len(getattr(self, 'cur_fn_stack', ())) > 1 and \
+                getattr(self.cur_fn_stack[-1], 'name', '') != 'elaborate':
+            # a local written under a condition from inside a helper / closure: the helper may be called from several
+            # places (the static count of assignment sites says nothing), and elsewhere the local is 0: a real signal
+            return False
         return True
 
     def add_statements(self, domain, v, node):
@@ -1172,8 +1184,10 @@ class Interp:
                     # Cat(a, Mux(c, x, y)) is Mux(c, Cat(a, x), Cat(a, y)): lift the selection out, then split it into arms
                     i_ = [k for k, x in enumerate(rhs.args) if isinstance(x, E) and x.op == 'mux' and len(x.args) == 3][0]
                     mx = rhs.args[i_]
-                    if isinstance(mx.args[0], E) and all(isinstance(b, E) and b.w == mx.w and mx.w is not None for b in mx.args[1:]):
-                        alts = [E('cat', rhs.args[:i_] + (b,) + rhs.args[i_ + 1:], w=rhs.w) for b in mx.args[1:]]
+                    arms = [E('const', val=b.val, w=mx.w) if isinstance(b, E) and b.op == 'const' and isinstance(b.val, int) and
+                            isinstance(mx.w, int) and 0 <= b.val < (1 << mx.w) and b.w != mx.w else b for b in mx.args[1:]]
+                    if isinstance(mx.args[0], E) and all(isinstance(b, E) and b.w == mx.w and mx.w is not None for b in arms):
+                        alts = [E('cat', rhs.args[:i_] + (b,) + rhs.args[i_ + 1:], w=rhs.w) for b in arms]
                         rhs = E('mux', (mx.args[0], alts[0], alts[1]), w=rhs.w)
                 if isinstance(rhs, E) and rhs.op == 'mux' and len(rhs.args) == 3 and isinstance(rhs.args[0], E):
                     # x.eq(Mux(c, a, b)) is `with m.If(c): x.eq(a)` / `with m.Else(): x.eq(b)`: one form for both spellings
